@@ -388,3 +388,29 @@ def gen_item(rng, i):
         body = ' { ' + ', '.join(field(k, True) for k in range(nf)) + (',' if nf and rng.random() < 0.5 else '') + ' }'
     src = '\n'.join(sattrs) + ('\n' if sattrs else '') + f"{vis}struct {name}{gen}{where}{body}"
     return src, ok
+
+
+# ---------------------------------------------------------------------------------------------------------------------------------
+# generic declarations whose field types both codecs can encode: compiled and run with nanoserde + serde (+ the other features) as well,
+# so that the cfg-dependent bounds the macro puts on USED type parameters (DeBin / SerBin / Serialize / DeserializeOwned) are exercised
+def codec_decls():
+    out = []
+    def decl(name, header, inst, body, mk, checks):
+        # a nested value travels whole inside the `<field>_full` variant of an Option + recurse field: the user's own type must be encodable then
+        src = ("#[cfg(feature = \"ns\")] #[allow(unused_imports)] use nanoserde::{SerBin, DeBin};\n#[derive(Debug, Clone, PartialEq, Difference)]\n#[cfg_attr(feature = \"ns\", derive(nanoserde::SerBin, nanoserde::DeBin))]\n#[cfg_attr(feature = \"sd\", derive(serde::Serialize, serde::Deserialize))]\npub struct " + name + "N { pub x: i64, pub y: Option<String>, #[difference(skip)] pub z: u8 }\n"
+               f"impl Mk for {name}N {{ fn mk(s: u64) -> Self {{ {name}N {{ x: Mk::mk(s), y: Mk::mk(s + 1), z: Mk::mk(s / 2) }} }} }}\n"
+               "#[derive(Debug, Clone, PartialEq, Difference)]\n" + header + " {\n" + body + "}\n" + mk +
+               f"pub fn test() -> Result<(), String> {{\n    for seed in 0..8u64 {{\n        let a: {inst} = Mk::mk(seed);\n        let b: {inst} = Mk::mk(seed * 7 + 1 + (seed % 3));\n"
+               "        let d = a.diff(&b);\n        let check = |r: &" + inst + "| -> Result<(), String> {\n" + checks + "            Ok(())\n        };\n        check(&a.clone().apply(d.clone()))?;\n"
+               "        let dr: Vec<_> = a.diff_ref(&b).into_iter().map(Into::into).collect();\n        check(&a.clone().apply(dr)).map_err(|m| format!(\"via diff_ref: {}\", m))?;\n"
+               "        if !a.diff(&a).is_empty() { return Err(format!(\"a.diff(&a) is not empty\")); }\n    }\n    Ok(())\n}\n")
+        out.append((name, src, ['codec_generic']))
+    decl('K0', "pub struct K0<T: Clone + PartialEq + std::fmt::Debug, U: Clone + PartialEq + std::fmt::Debug + 'static = i64>", "K0<i64, String>",
+         "    pub a: T,\n    pub b: Option<U>,\n    pub c: Vec<T>,\n    #[difference(collection_strategy = \"ordered_array_like\")]\n    pub d: Vec<U>,\n    #[difference(recurse)]\n    pub e: K0N,\n    #[difference(skip)]\n    pub f: T,\n",
+         "impl<T: Mk + Clone + PartialEq + std::fmt::Debug, U: Mk + Clone + PartialEq + std::fmt::Debug + 'static> Mk for K0<T, U> { fn mk(s: u64) -> Self { K0 { a: Mk::mk(s), b: Mk::mk(s + 1), c: Mk::mk(s + 2), d: Mk::mk(s + 3), e: Mk::mk(s + 4), f: Mk::mk(s + 5) } } }\n",
+         "        if r.a != b.a || r.b != b.b || r.c != b.c || r.d != b.d || r.e.x != b.e.x || r.e.y != b.e.y { return Err(format!(\"round trip: {:?} != {:?}\", r, b)); }\n        if r.f != a.f || r.e.z != a.e.z { return Err(format!(\"skipped field changed\")); }\n")
+    decl('K1', "#[difference(setters)]\npub struct K1<T>\nwhere T: Clone + PartialEq + std::fmt::Debug + std::hash::Hash + Eq + 'static", "K1<String>",
+         "    #[difference(collection_strategy = \"unordered_array_like\")]\n    pub a: Vec<T>,\n    #[difference(collection_strategy = \"unordered_map_like\", map_equality = \"key_and_value\")]\n    pub b: std::collections::HashMap<T, i64>,\n    #[difference(recurse)]\n    pub c: Option<K1N>,\n    pub d: (T, u8),\n",
+         "impl<T: Mk + Clone + PartialEq + std::fmt::Debug + std::hash::Hash + Eq + 'static> Mk for K1<T> { fn mk(s: u64) -> Self { K1 { a: Mk::mk(s), b: Mk::mk(s + 1), c: Mk::mk(s + 2), d: Mk::mk(s + 3) } } }\n",
+         "        if sorted_dbg(&r.a) != sorted_dbg(&b.a) || r.b != b.b || r.d != b.d { return Err(format!(\"round trip: {:?} != {:?}\", r, b)); }\n        match (&r.c, &b.c) { (None, None) => (), (Some(x), Some(y)) if x.x == y.x && x.y == y.y => (), _ => return Err(format!(\"recurse option: {:?} != {:?}\", r.c, b.c)) }\n")
+    return out
